@@ -246,6 +246,20 @@ theorem comm_members_do_not_barrier (c : Coll)
   simp only [List.mem_cons, List.not_mem_nil, or_false] at h
   rcases h with rfl | rfl | rfl | rfl | rfl <;> decide
 
+/-- structural: `sum / min / max / prefix_sum` fold the values their argument variables hold AFTER the
+barrier, i.e. with every outstanding async applied (composition with C02), whatever they held at the call -/
+theorem reductions_read_after_barrier {α : Type} (c : Coll) (h : c ∈ [Coll.sum, .min, .max, .prefixSum])
+    (atCall final : List α) : contributed c atCall final = final := by
+  simp only [List.mem_cons, List.not_mem_nil, or_false] at h
+  rcases h with rfl | rfl | rfl | rfl <;> rfl
+
+/-- structural: `logical_and / logical_or` (bool by value) and `is_same` (read before `logical_and`'s
+barrier) fold the values passed at the call — later handler updates of the variable are not seen -/
+theorem by_value_reductions_read_at_call {α : Type} (c : Coll) (h : c ∈ [Coll.logicalAnd, .logicalOr, .isSame])
+    (atCall final : List α) : contributed c atCall final = atCall := by
+  simp only [List.mem_cons, List.not_mem_nil, or_false] at h
+  rcases h with rfl | rfl | rfl <;> rfl
+
 /-- meaning of the boolean check used above -/
 theorem barrierBeforeReductions_sound (ps : List Prim) (h : barrierBeforeReductions ps = true)
     (i : Nat) (p : Prim) (hp : ps[i]? = some p) (hr : p.isReduction = true) :
